@@ -206,6 +206,10 @@ def run_unit(unit_path, tier='quick', seed=0, hooks=None):
             if rm['json'] is None or not rm['json'].get('verification-results'):
                 res['canaries'].append(dict(kind='mutant', name=mu['name'], status='no-result'))
                 continue
+            if not failed and not rm['json']['verification-results'].get('success'):
+                # the mutated text does not compile: the mutant says nothing
+                res['canaries'].append(dict(kind='mutant', name=mu['name'], status='does-not-compile'))
+                continue
             if failed:
                 exp = mu['expect']
                 ok = (not exp) or any(f == e or f.endswith('::' + e) for f in failed for e in exp)
